@@ -278,4 +278,146 @@ theorem flush_run (d : Dfsr) (p : Plan) (st : Store) (r0 : Run) (t : Nat) (bs : 
       writeAt_filled _ _ _ (by rw [hDlen]; have := rowSel_length d p (List.range' a m) (bs.drop fb); simp only [rowSel] at this ⊢; rw [this, hc.hrl, hnv]; omega)]
     rw [rowSel_append]; rfl
 
+
+theorem exec_skip' (d : Dfsr) (st : Store) (r : Run) (t : Nat) (bs : List Nat) (siz : Nat) (fr cf ct : Option Nat)
+    (hcur : r.cur = some (t, bs)) (hlen : r.ofs + siz ≤ bs.length) :
+    ∃ ops, execEv d st r ⟨.skip, siz, fr, cf, ct⟩ = .ok ⟨r.cur, r.ofs + siz, r.fs, ops⟩ := by
+  unfold execEv
+  simp only [hcur]
+  exact ⟨_, by rw [Nat.min_eq_right hlen]⟩
+
+theorem range'_snoc (a m : Nat) : List.range' a (m + 1) = List.range' a m ++ [a + m] := by
+  rw [List.range'_concat]; simp
+
+/-- **The channel loop, executed**: the accumulated events bring the row to "channels before the pending run written,
+file at the start of the pending run". -/
+theorem frameEvLoop_exec (d : Dfsr) (p : Plan) (st : Store) (r0 : Run) (t : Nat) (bs : List Nat) (fb fr : Nat)
+    (cs : List Nat) (row0 : List (Option Nat)) (hc : FrameCtx d p r0 t bs fb fr cs row0) :
+    ∀ (rem D : List Nat) (chStart stopP1 siz : Nat) (acc : List Ev) (ra : Run),
+      cs = D ++ List.range' chStart (stopP1 - chStart) ++ rem → chStart ≤ stopP1 →
+      (∀ c ∈ rem, stopP1 ≤ c) → rem.Pairwise (· < ·) → siz + p.skipToChStart chStart = p.skipToChStart stopP1 →
+      (∀ x ∈ D, x < chStart) →
+      execEvs d st (withFr fr acc) r0 = .ok ra → AtCh d p r0 bs fb fr row0 D chStart ra →
+      ∀ acc' cS sP sz, frameEvLoop p rem chStart stopP1 siz acc = (acc', cS, sP, sz) →
+        ∃ D' ra', cs = D' ++ List.range' cS (sP - cS) ∧ cS ≤ sP ∧ sz + p.skipToChStart cS = p.skipToChStart sP ∧
+          (∀ x ∈ D', x < cS) ∧ execEvs d st (withFr fr acc') r0 = .ok ra' ∧ AtCh d p r0 bs fb fr row0 D' cS ra' := by
+  intro rem
+  induction rem with
+  | nil =>
+    intro D chStart stopP1 siz acc ra hcs hle _ _ hsiz hD hex hat acc' cS sP sz h
+    simp only [frameEvLoop, Prod.mk.injEq] at h
+    obtain ⟨rfl, rfl, rfl, rfl⟩ := h
+    exact ⟨D, ra, by simpa using hcs, hle, hsiz, hD, hex, hat⟩
+  | cons c rem ih =>
+    intro D chStart stopP1 siz acc ra hcs hle hge hsorted hsiz hD hex hat acc' cS sP sz h
+    have hcge : stopP1 ≤ c := hge c (List.mem_cons_self ..)
+    have hsorted' : rem.Pairwise (· < ·) := (List.pairwise_cons.1 hsorted).2
+    have hgt : ∀ c' ∈ rem, c + 1 ≤ c' := fun c' hc' => (List.pairwise_cons.1 hsorted).1 c' hc'
+    simp only [frameEvLoop] at h
+    by_cases heq : c = stopP1
+    · simp only [heq, if_true] at h
+      subst heq
+      have hcs' : cs = D ++ List.range' chStart (c + 1 - chStart) ++ rem := by
+        rw [hcs, show c + 1 - chStart = (c - chStart) + 1 by omega, range'_snoc, show chStart + (c - chStart) = c by omega]
+        simp [List.append_assoc]
+      exact ih D chStart (c + 1) (siz + p.chSize c) acc ra hcs' (by omega) hgt hsorted'
+        (by rw [skip_succ]; omega) hD hex hat acc' cS sP sz h
+    · simp only [heq, if_false] at h
+      have hlt : stopP1 < c := by omega
+      have hmono := skip_mono p stopP1 c (by omega)
+      have hcin : c < d.chans.length := by apply hc.hlt; rw [hcs]; simp
+      have hle2 := skip_le_frame p c
+      have hfbl := hc.hfb
+      -- flush the pending run (if any), then skip to channel c
+      have hflush : ∃ rb, execEvs d st (withFr fr (if stopP1 > chStart then acc ++ [⟨.read, siz, none, some chStart, some (stopP1 - 1)⟩] else acc)) r0 = .ok rb ∧
+          AtCh d p r0 bs fb fr row0 (D ++ List.range' chStart (stopP1 - chStart)) stopP1 rb := by
+        by_cases hg : stopP1 > chStart
+        · simp only [hg, if_true, withFr_append, execEvs_append, hex]
+          have hsz : siz = p.skipToChStart (chStart + (stopP1 - chStart)) - p.skipToChStart chStart := by
+            rw [show chStart + (stopP1 - chStart) = stopP1 by omega]; omega
+          obtain ⟨ra2, hex2, hat2⟩ := flush_run d p st r0 t bs fb fr cs row0 hc D (c :: rem) chStart (stopP1 - chStart)
+            (by omega) hcs hD ra hat
+          rw [show chStart + (stopP1 - chStart) = stopP1 by omega] at hex2 hat2
+          refine ⟨ra2, ?_, hat2⟩
+          simp only [withFr, List.map_cons, List.map_nil, execEvs]
+          rw [show siz = p.skipToChStart stopP1 - p.skipToChStart chStart by omega, hex2]
+        · have h0 : stopP1 = chStart := by omega
+          simp only [hg, if_false]
+          refine ⟨ra, hex, ?_⟩
+          subst h0; simpa using hat
+      obtain ⟨rb, hexb, hatb⟩ := hflush
+      obtain ⟨hb1, hb2, hb3⟩ := hatb
+      obtain ⟨ops, hsk⟩ := exec_skip' d st rb t bs (p.skipToChStart c - p.skipToChStart stopP1) (some fr) (some stopP1) (some (c - 1))
+        (by rw [hb1]; exact hc.hcur) (by rw [hb2]; omega)
+      have hcs' : cs = (D ++ List.range' chStart (stopP1 - chStart)) ++ List.range' c (c + 1 - c) ++ rem := by
+        rw [hcs, show c + 1 - c = 1 by omega]; simp [List.append_assoc]
+      refine ih (D ++ List.range' chStart (stopP1 - chStart)) c (c + 1) (p.chSize c) _
+        ⟨rb.cur, rb.ofs + (p.skipToChStart c - p.skipToChStart stopP1), rb.fs, ops⟩ hcs' (by omega) hgt hsorted'
+        (by rw [skip_succ]; omega) ?_ ?_ ?_ acc' cS sP sz h
+      · intro x hx
+        rcases List.mem_append.1 hx with h1 | h1
+        · have := hD x h1; omega
+        · simp only [List.mem_range'_1] at h1; omega
+      · rw [withFr_append, execEvs_append, hexb]
+        simp only [withFr, List.map_cons, List.map_nil, execEvs, hsk]
+      · exact ⟨hb1, by simp only [hb2]; omega, hb3⟩
+
+
+theorem filled_full (row0 : List (Option Nat)) (ws : List Nat) (h : ws.length = row0.length) :
+    filled row0 ws = ws.map some := by
+  unfold filled; rw [h, List.drop_length, List.append_nil]
+
+/-- **The events of one frame, executed** (any non-empty sorted channel list `cs = chIdx`): started at the first
+selected channel of the frame whose bytes begin at `fb`, they replace row `fr` by the words of the selected channels and
+leave the file behind the last selected channel. -/
+theorem frameEvents_exec (d : Dfsr) (p : Plan) (st : Store) (r0 : Run) (t : Nat) (bs : List Nat) (fb fr : Nat)
+    (c0 : Nat) (rest : List Nat) (row0 : List (Option Nat)) (hc : FrameCtx d p r0 t bs fb fr (c0 :: rest) row0)
+    (hsorted : (c0 :: rest).Pairwise (· < ·)) (hofs : r0.ofs = fb + p.skipToChStart c0)
+    (pre post : Option Ev) (fevts : List Ev) (hret : retFrameEvents p (c0 :: rest) = (pre, fevts, post)) :
+    ∃ r', execEvs d st (withFr fr fevts) r0 = .ok r' ∧ r'.cur = r0.cur ∧
+      r'.ofs = fb + p.skipToChStart (lastP1 rest (c0 + 1)) ∧
+      r'.fs = { r0.fs with frames := r0.fs.frames.set fr ((rowSel d p (c0 :: rest) (bs.drop fb)).map some) } := by
+  unfold retFrameEvents at hret
+  simp only at hret
+  have hstep : frameEvLoop p (c0 :: rest) c0 c0 0 [] = frameEvLoop p rest c0 (c0 + 1) (0 + p.chSize c0) [] := by
+    simp [frameEvLoop]
+  rw [hstep] at hret
+  have hsorted' : rest.Pairwise (· < ·) := (List.pairwise_cons.1 hsorted).2
+  have hgt : ∀ c' ∈ rest, c0 + 1 ≤ c' := fun c' hc' => (List.pairwise_cons.1 hsorted).1 c' hc'
+  cases hr : frameEvLoop p rest c0 (c0 + 1) (0 + p.chSize c0) [] with
+  | mk acc' r2 =>
+    obtain ⟨cS, sP, sz⟩ := r2
+    rw [hr] at hret
+    simp only [Prod.mk.injEq] at hret
+    obtain ⟨_, hfev, _⟩ := hret
+    have hgtP := frameEvLoop_gt p rest c0 (c0 + 1) _ [] acc' cS sP sz hr (by omega)
+    simp only [hgtP, if_true] at hfev
+    subst hfev
+    have hsP := (frameEvLoop_spec p 0 (0 + p.skipToChStart c0) rest c0 (c0 + 1) (0 + p.chSize c0) []
+      (by simp [evEnd]) (by rw [skip_succ]; omega) (by omega) (by omega) hgt hsorted' acc' cS sP sz hr).2.2.1
+    have hat0 : AtCh d p r0 bs fb fr row0 [] c0 r0 := by
+      refine ⟨rfl, hofs, ?_⟩
+      have hlt : fr < r0.fs.frames.length := by
+        rcases Nat.lt_or_ge fr r0.fs.frames.length with h | h
+        · exact h
+        · have := hc.hrow; rw [List.getElem?_eq_none h] at this; cases this
+      have hget : r0.fs.frames[fr] = row0 := by
+        have := hc.hrow; rw [List.getElem?_eq_getElem hlt] at this; exact Option.some.inj this
+      simp only [rowSel, List.flatMap_nil, filled, List.map_nil, List.length_nil, List.drop_zero, List.nil_append]
+      rw [← hget, List.set_getElem_self]
+    obtain ⟨D', ra', hcs, hle, hsz, hD', hex, hat⟩ := frameEvLoop_exec d p st r0 t bs fb fr (c0 :: rest) row0 hc rest [] c0 (c0 + 1)
+      (0 + p.chSize c0) [] r0 (by simp [List.range'_succ]) (by omega) hgt hsorted' (by rw [skip_succ]; omega) (by simp)
+      (by simp [withFr, execEvs]) hat0 acc' cS sP sz hr
+    obtain ⟨ra2, hex2, hat2⟩ := flush_run d p st r0 t bs fb fr (c0 :: rest) row0 hc D' [] cS (sP - cS) (by omega)
+      (by simpa using hcs) hD' ra' hat
+    rw [show cS + (sP - cS) = sP by omega] at hex2 hat2
+    obtain ⟨h1, h2, h3⟩ := hat2
+    refine ⟨ra2, ?_, h1, ?_, ?_⟩
+    · rw [withFr_append, execEvs_append, hex]
+      simp only [withFr, List.map_cons, List.map_nil, execEvs]
+      rw [show sz = p.skipToChStart sP - p.skipToChStart cS by omega, hex2]
+    · rw [h2, hsP]
+    · rw [h3, ← hcs, filled_full]
+      rw [rowSel_length, hc.hrl]
+
 end TD.C06
